@@ -584,9 +584,12 @@ def baseline_job(data: bytes, pw: str, las: List[str], reverse: bool = False, li
                              for t in ("text", "xml", "html", "tag")}
                 # XML (carries bbox and rotate of every page) page by page and all together, without and with
                 # the `rotation` option
-                npg = r.get("npages")
+                # the page count must not depend on which steps ran before this one (the reverse-order
+                # process runs "tofp" first): count the pages without interpreting them
+                from pdfminer.pdfpage import PDFPage
+                npg = _try(lambda: len(list(PDFPage.get_pages(io.BytesIO(data), password=pw))))
                 if not isinstance(npg, int):
-                    npg = len(r["pages"]) if isinstance(r.get("pages"), list) else 0
+                    npg = 0
                 r["tofp_rot"] = {}
                 for rot in (0, 90):
                     def one(pages, rot=rot):
@@ -1085,9 +1088,21 @@ def run_pool(ctx: C.Ctx, seed: str, size: int, nhist: int, hist_len: int) -> Non
             if a != b:
                 la = next(k for k in a if a[k] != b[k])
                 key = next(k for k in a[la] if a[la][k] != b[la][k])
+                va, vb, path = a[la][key], b[la][key], [key]
+                # descend to the first part that really differs, so that expected/got show the difference
+                while True:
+                    if isinstance(va, dict) and isinstance(vb, dict) and set(va) == set(vb):
+                        k2 = next(k for k in va if va[k] != vb[k])
+                    elif isinstance(va, list) and isinstance(vb, list) and len(va) == len(vb):
+                        k2 = next(i for i in range(len(va)) if va[i] != vb[i])
+                    else:
+                        break
+                    va, vb = va[k2], vb[k2]
+                    path.append(k2)
                 ctx.fail(C.Failure("two fresh processes running the option variants in opposite order disagree",
-                                   {"pool": seed, "size": size, "ops": [], "doc": d.idx, "la": la, "key": key},
-                                   repr(a[la][key])[:400], repr(b[la][key])[:400], {"op": "baseline-order"}))
+                                   {"pool": seed, "size": size, "ops": [], "doc": d.idx, "la": la, "key": key,
+                                    "path": path, "docs_hex": {str(d.idx): d.data.hex()}},
+                                   repr(va)[:600], repr(vb)[:600], {"op": "baseline-order"}))
     check_baseline_self(ctx, seed, docs, base)
     rng = random.Random(seed + "/hist/" + str(ctx.seed) + "/" + str(ctx.boost))
     # systematic part: every document right after every other document (all ordered pairs)
